@@ -149,6 +149,12 @@ impl IsoDateTime {
         utc_epoch_nanos(self.date, &self.time)
     }
 
+    /// `GetUTCEpochNanoseconds`: the UTC reading of this wall-clock value. It can lie up to a
+    /// day outside the range of valid epoch nanoseconds and is only compared or offset further.
+    pub(crate) fn utc_epoch_nanoseconds_unchecked(&self) -> i128 {
+        to_unchecked_epoch_nanoseconds(self.date, &self.time)
+    }
+
     /// Specification equivalent to 5.5.9 `AddDateTime`.
     pub(crate) fn add_date_duration(
         &self,
